@@ -88,6 +88,25 @@ class DType:
         return ScalarType(self)
 
 
+class IntScalar:
+    """numpy.int32(v) etc.: a fixed-width integer scalar (only tobytes / int() are modelled)."""
+    _pyvc_model_class = True
+
+    def __init__(self, v, dtype):
+        self.v, self.dtype = v, dtype
+        bits = 32 if dtype.name == 'int32' else 64
+        c = core.ctx()
+        if c.branch(z3.Or(zint(v) < -(2 ** (bits - 1)), zint(v) >= 2 ** (bits - 1))):
+            raise_(OverflowError, 'Python integer out of bounds for ' + dtype.name)
+
+    def tobytes(self, order='C'):
+        from .stdlib import BytesOf
+        return BytesOf(('int', self.dtype.name), self.v)
+
+    def _int(self):
+        return self.v
+
+
 class ScalarType:
     """numpy.int32, numpy.float64 ... usable as dtype, in issubclass, and as constructor."""
     _pyvc_model_class = True
@@ -98,6 +117,8 @@ class ScalarType:
         self.__name__ = dtype.name if dtype else abstract
 
     def __call__(self, v=0):
+        if self._dtype is not None and self._dtype.kind == 'i' and isinstance(v, (int, SInt)) and not isinstance(v, bool):
+            return IntScalar(v, self._dtype)
         return v
 
     def _issubclass(self, t):
@@ -616,7 +637,8 @@ class NDArray:
 
     def tobytes(self, order='C'):
         from .stdlib import BytesOf
-        return BytesOf('array-bytes', self)
+        used('NP-TOBYTES')
+        return BytesOf(('array', order, self.dtype.name), self)
 
     def compressed(self):
         used('NP-MA-COMPRESSED')
